@@ -331,6 +331,7 @@ func lemmaBlindSignVerifies(rnd io.Reader, skS, skB *PrivateKey, hash, context [
 	n := ECOrder(c)
 	d := (BigVal(skS.D) * k) % n
 	Vassert(k >= 0 && d >= 0)
+	AxECMulBase(c, k, BigVal(skS.D))                                           // assumed group fact: k*(D*G) = (k*D mod N)*G
 	Vassert(BigVal(pkB.X) == ECBaseX(c, d) && BigVal(pkB.Y) == ECBaseY(c, d)) // k*(D*G) = (D*k mod N)*G
 	e := SpecHashToInt(string(hash), n)
 	Vassert(pkB.Curve == c)
